@@ -1,6 +1,15 @@
-(* C05 — the shared manager model with the C05 oracle. *)
+(* C05 — the shared manager model with the C05 oracle; cases that start with the stream tag 9000
+   belong to the TCP transport stream (coq/Tcp). *)
 From Coq Require Import List NArith.
 From V.Mgr Require Import Model Glue.
-Definition run_case := V.Mgr.Glue.run_case.
-Definition prop_ok := prop_ok_C05.
-Definition known_class := known_class_C05.
+From V.Tcp Require Glue.
+Import ListNotations.
+Open Scope N_scope.
+Definition is_tcp (l : list N) : bool :=
+  match l with t :: _ => t =? V.Tcp.Glue.STREAM_TAG | [] => false end.
+Definition run_case (l : list N) : list N :=
+  if is_tcp l then V.Tcp.Glue.run_case l else V.Mgr.Glue.run_case l.
+Definition prop_ok (case trace : list N) : bool :=
+  if is_tcp case then V.Tcp.Glue.prop_ok case trace else prop_ok_C05 case trace.
+Definition known_class (case trace : list N) : N :=
+  if is_tcp case then V.Tcp.Glue.known_class case trace else known_class_C05 case trace.
